@@ -266,6 +266,56 @@ fn layout_tree(reg: &HashMap<String, Entry>, t: &Value) -> Value {
     }
 }
 
+/// WIRE_START=n : skip the first n records and append to the output (used by the driver to resume after the
+/// process was killed by the code under test, e.g. an allocation failure abort)
+fn start_at() -> usize {
+    std::env::var("WIRE_START").ok().and_then(|s| s.parse().ok()).unwrap_or(0)
+}
+fn open_out(path: &str) -> BufWriter<std::fs::File> {
+    let f = if start_at() > 0 {
+        std::fs::OpenOptions::new().append(true).open(path).expect("out file")
+    } else {
+        std::fs::File::create(path).expect("out file")
+    };
+    BufWriter::new(f)
+}
+
+/// runs f in a forked child and returns its JSON result; a child killed by a signal yields a "died" observation
+fn in_child(f: impl FnOnce() -> Value) -> Value {
+    use std::io::Read;
+    use std::os::unix::io::FromRawFd;
+    unsafe {
+        let mut fds = [0i32; 2];
+        if libc::pipe(fds.as_mut_ptr()) != 0 {
+            return f();
+        }
+        let pid = libc::fork();
+        if pid == 0 {
+            libc::close(fds[0]);
+            let devnull = libc::open(b"/dev/null\0".as_ptr() as *const libc::c_char, libc::O_WRONLY);
+            libc::dup2(devnull, 2);
+            let v = f();
+            let s = serde_json::to_vec(&v).unwrap();
+            let mut w = std::fs::File::from_raw_fd(fds[1]);
+            let _ = std::io::Write::write_all(&mut w, &s);
+            drop(w);
+            libc::_exit(0);
+        }
+        libc::close(fds[1]);
+        let mut r = std::fs::File::from_raw_fd(fds[0]);
+        let mut buf = Vec::new();
+        let _ = r.read_to_end(&mut buf);
+        let mut status = 0i32;
+        libc::waitpid(pid, &mut status, 0);
+        if libc::WIFSIGNALED(status) || buf.is_empty() {
+            let sig = if libc::WIFSIGNALED(status) { libc::WTERMSIG(status) } else { 0 };
+            // SIGABRT after a failed allocation is what std's handle_alloc_error does
+            return json!({"real": "died", "msg": format!("child killed by signal {}", sig), "rpos": 0, "reser": [], "oom": sig == libc::SIGABRT});
+        }
+        serde_json::from_slice(&buf).unwrap_or(json!({"real": "died", "msg": "unreadable child result", "rpos": 0, "reser": [], "oom": false}))
+    }
+}
+
 fn main() {
     let args: Vec<String> = std::env::args().collect();
     let cmd = args.get(1).map(|s| s.as_str()).unwrap_or("");
@@ -274,11 +324,11 @@ fn main() {
     match cmd {
         "replay" => {
             let input = std::fs::File::open(&args[2]).expect("records file");
-            let mut out = BufWriter::new(std::fs::File::create(&args[3]).expect("out file"));
+            let mut out = open_out(&args[3]);
             let every: usize = std::env::var("WIRE_ALLMODES_EVERY").ok().and_then(|s| s.parse().ok()).unwrap_or(1);
             for (i, line) in std::io::BufReader::new(input).lines().enumerate() {
                 let line = line.unwrap();
-                if line.trim().is_empty() {
+                if i < start_at() || line.trim().is_empty() {
                     continue;
                 }
                 let rec: Value = serde_json::from_str(&line).expect("record json");
@@ -293,20 +343,118 @@ fn main() {
                 };
                 let res = json!({"i": i, "fails": cx.fails, "obs": obs});
                 writeln!(out, "{}", res).unwrap();
+                out.flush().unwrap();
             }
         }
         "evo" => {
             let input = std::fs::File::open(&args[2]).expect("records file");
-            let mut out = BufWriter::new(std::fs::File::create(&args[3]).expect("out file"));
+            let mut out = open_out(&args[3]);
             for (i, line) in std::io::BufReader::new(input).lines().enumerate() {
                 let line = line.unwrap();
-                if line.trim().is_empty() {
+                if i < start_at() || line.trim().is_empty() {
                     continue;
                 }
                 let rec: Value = serde_json::from_str(&line).expect("record json");
                 let mut cx = Ctx { fails: vec![] };
                 evo_one(&reg, &rec, &mut cx);
                 writeln!(out, "{}", json!({"i": i, "fails": cx.fails})).unwrap();
+                out.flush().unwrap();
+            }
+        }
+        "garbage" => {
+            // C06 / C07(payload): load malformed input; record what happened; the verdict is TLC's (MutTrace.tla)
+            // Address-space limit: an absurd declared length must fail to allocate at once instead of
+            // zero-filling gigabytes (hash tables, bit vectors) before the reader notices the end of input.
+            unsafe {
+                let lim = libc::rlimit { rlim_cur: 3 << 29, rlim_max: 3 << 29 };
+                libc::setrlimit(libc::RLIMIT_AS, &lim);
+            }
+            let input = std::fs::File::open(&args[2]).expect("records file");
+            let mut out = open_out(&args[3]);
+            for (i, line) in std::io::BufReader::new(input).lines().enumerate() {
+                let line = line.unwrap();
+                if i < start_at() || line.trim().is_empty() {
+                    continue;
+                }
+                let rec: Value = serde_json::from_str(&line).expect("record json");
+                let key = canon(&rec["t"]);
+                let ver = rec["ver"].as_u64().unwrap() as u32;
+                let inp = bytes_of(&rec["inp"]);
+                let risky = rec["err"] == "eof-or-alloc";
+                let run = || -> Value {
+                    match reg.get(&key) {
+                        None => json!({"real": "tool", "msg": format!("missing type {}", key), "rpos": 0, "reser": [], "oom": false}),
+                        Some(e) => {
+                            let mut src = TapR::new(&inp);
+                            src.keep_log = false;
+                            match e.ops.reload(&mut src, ver) {
+                                Outcome::Ok(b) => json!({"real": "ok", "msg": "", "rpos": src.pos, "reser": b, "oom": false}),
+                                Outcome::Err(c, m) => json!({"real": "err", "msg": format!("{}: {}", c, m), "rpos": src.pos, "reser": [], "oom": false}),
+                                Outcome::Panic(m) => {
+                                    let oom = m.contains("allocat") || m.contains("capacity overflow");
+                                    json!({"real": "panic", "msg": m, "rpos": src.pos, "reser": [], "oom": oom})
+                                }
+                            }
+                        }
+                    }
+                };
+                // inputs whose declared length is absurd are handled in a forked child: an allocation-failure
+                // abort then costs a fork, not a restart of this process
+                let obs = if risky { in_child(run) } else { run() };
+                writeln!(out, "{}", json!({"i": i, "fails": [], "obs": obs})).unwrap();
+                out.flush().unwrap();
+            }
+        }
+        "prefixes" => {
+            // C07: every strict prefix of every real file, in every container
+            let input = std::fs::File::open(&args[2]).expect("records file");
+            let mut out = open_out(&args[3]);
+            for (i, line) in std::io::BufReader::new(input).lines().enumerate() {
+                let line = line.unwrap();
+                if i < start_at() || line.trim().is_empty() {
+                    continue;
+                }
+                let rec: Value = serde_json::from_str(&line).expect("record json");
+                let key = canon(&rec["t"]);
+                let ver = rec["ver"].as_u64().unwrap() as u32;
+                let mv: MV = serde_json::from_value(rec["v"].clone()).expect("model value");
+                let mut fails = vec![];
+                let mut ncuts = 0usize;
+                if let Some(e) = reg.get(&key) {
+                    for mode in [Mode::Plain, Mode::NoSchema, Mode::Bz, Mode::Crypto] {
+                        let tag = format!("{:?}", mode).to_lowercase();
+                        let mut sink = Tap::new();
+                        sink.keep_log = false;
+                        if !e.ops.save(&mv, ver, mode, &mut sink).is_ok() {
+                            continue;
+                        }
+                        let file = sink.data;
+                        for k in 0..file.len() {
+                            ncuts += 1;
+                            let mut src = TapR::new(&file[..k]);
+                            src.keep_log = false;
+                            match e.ops.load(&mut src, ver, mode) {
+                                Outcome::Err(..) => {}
+                                Outcome::Ok(back) => {
+                                    // only trailing container bytes may be missing (bzip2 end-of-stream trailer)
+                                    if back != mv {
+                                        fails.push(json!({"check": format!("c07.prefix.{}.different_value", tag),
+                                            "detail": format!("prefix {}/{} loaded as {:?}", k, file.len(), back)}));
+                                    } else if mode != Mode::Bz {
+                                        fails.push(json!({"check": format!("c07.prefix.{}.accepted", tag),
+                                            "detail": format!("prefix {}/{} was accepted (equal value) although payload bytes are missing", k, file.len())}));
+                                    }
+                                }
+                                Outcome::Panic(m) => fails.push(json!({"check": format!("c07.prefix.{}.panic", tag),
+                                    "detail": format!("prefix {}/{} panicked: {}", k, file.len(), m)})),
+                            }
+                        }
+                    }
+                } else {
+                    fails.push(json!({"check": "tool.missing_type", "detail": key}));
+                }
+                writeln!(out, "{}", json!({"i": i, "fails": fails, "obs": {"cuts": ncuts}})).unwrap();
+                out.flush().unwrap();
             }
         }
         "introlen" => {
